@@ -18,6 +18,7 @@ NT = TStruct("nt_t", (TField("x", INTS["uint8"]), TField("y", INTS["uint16"])))
 EN = TEnum("En", INTS["uint8"], (("A", 1), ("B", 2)))
 NS17 = TStruct("ns17_t", (TField("lo", INTS["uint8"]), TField("hi", INTS["uint8"])))
 UNS17 = TStruct("uns17_t", (TField("w", INTS["uint16"]), TField("s", NS17)), union=True)  # a union holding a nested structure (no list member: hashable)
+DEEP17 = TStruct("deep17_t", (TField("h", INTS["uint8"]), TField("i", NT)))
 UN17 = TStruct("un17_t", (TField("w", INTS["uint16"]), TField("b", TArr(INTS["uint8"], 2))), union=True)
 
 # kind -> (list of TField templates (name suffix, type, bits), values per sub-field [zero, nz1, nz2], always-truthy?)
@@ -30,6 +31,8 @@ KINDS = {
     "enum": ([("", EN, None)], [[0, 1, 7]]),
     "flt": ([("", FLOATS["float"], None)], [[0.0, 1.5, -0.0]]),
     "bits": ([("a", INTS["uint8"], 4), ("b", INTS["uint8"], 4)], [[0, 5, 15], [0, 15, 1]]),
+    "ebits": ([("a", EN, 4), ("b", EN, 4)], [[0, 1, 7], [0, 7, 1]]),  # bit-fields of an enum type: the zero value is the enum's 0, not a plain integer
+    "deep": ([("", DEEP17, None)], [[{"h": 0, "i": {"x": 0, "y": 0}}, {"h": 1, "i": {"x": 2, "y": 3}}, {"h": 0, "i": {"x": 0, "y": 9}}]]),  # nested two levels
     "cbits": ([("a", CHAR, 4), ("b", CHAR, 4)], [[0, 5, 15], [0, 15, 1]]),  # bit-fields over a char storage unit (read as integers)
     "anon": ([("", "ANON", None)], [[{"p": 0, "q": 0}, {"p": 3, "q": 4}, {"p": 0, "q": 9}]]),
     "ptr": ([("", TPtr(INTS["uint8"]), None)], [[0, 8, 1]]),
@@ -63,8 +66,10 @@ def build(kinds, name="T"):
 def mk_impl_value(cs, kind, v):
     if kind == "nest":
         return cs.nt_t(x=v["x"], y=v["y"])
-    if kind == "enum":
+    if kind in ("enum", "ebits"):
         return cs.En(v)
+    if kind == "deep":
+        return cs.deep17_t(h=v["h"], i=cs.nt_t(x=v["i"]["x"], y=v["i"]["y"]))
     if kind == "un":
         return cs.un17_t(w=v)
     if kind == "uns":
@@ -81,6 +86,8 @@ def plain_truthy(kind, v):
         return True  # a union holds a (non-empty) array member
     if kind == "nest":
         return bool(v["x"]) or bool(v["y"])
+    if kind == "deep":
+        return bool(v["h"]) or bool(v["i"]["x"]) or bool(v["i"]["y"])
     if kind in ("c2", "a2", "arrs", "a2d"):
         return True  # non-empty bytes / list objects are truthy (DESIGN 7.9)
     return bool(v)
@@ -244,8 +251,22 @@ def check_struct(kinds, res: JobResult, tier, align=False, compiled=False, endia
             continue
         if not _plain_eq(zn.get(s[0]), s[1][0]) and not (s[2] == "flt" and zn.get(s[0]) == 0.0):
             issue("default:not-zero", f"default instance has {s[0]} = {zn.get(s[0])!r}, zero value {s[1][0]!r}")
+    # ---- the zero value of an enum / flag field is a member-like object of that enum, as the parse of zero bytes yields
+    import enum as _enum
+
+    try:
+        if T.size is not None:
+            pz_ = T(bytes(T.size))
+            for f in T.__fields__:
+                a_, b_ = getattr(z, f._name), getattr(pz_, f._name)
+                if isinstance(b_, _enum.Enum) and type(a_) is not type(b_):  # (only for enum / flag fields is the value's class part of its meaning)
+                    issue("default:type", f"default instance holds a {type(a_).__name__} in {f._name} ({a_!r}), the instance parsed from zero bytes a {type(b_).__name__} ({b_!r})")
+                    break
+    except Exception as e:  # noqa: BLE001
+        issue("default:type", f"{impl.exc_sig(e)} {e!r}")
     # ---- assigning below field level on a DEFAULT instance (element of an array, field of a nested struct) changes exactly those bytes
     inplace = {"nest": (lambda o, n: setattr(getattr(o, n), "x", 0xAA), lambda v: v.__setitem__("x", 0xAA)),
+               "deep": (lambda o, n: setattr(getattr(o, n).i, "x", 0xAA), lambda v: v["i"].__setitem__("x", 0xAA)),
                "a2": (lambda o, n: getattr(o, n).__setitem__(0, 0xAA), lambda v: v.__setitem__(0, 0xAA)),
                "arrs": (lambda o, n: setattr(getattr(o, n)[0], "x", 0xAA), lambda v: v[0].__setitem__("x", 0xAA)),
                "a2d": (lambda o, n: getattr(o, n)[1].__setitem__(0, 0xAA), lambda v: v[1].__setitem__(0, 0xAA))}
@@ -449,7 +470,7 @@ def jobs(tier):
     kmax = 4
     seqs = []
     for k in range(0, kmax + 1):
-        mid = ["u8", "c2", "nest", "enum", "bits", "anon", "un", "arrs", "uns", "cbits"]
+        mid = ["u8", "c2", "nest", "enum", "bits", "anon", "un", "arrs", "uns", "cbits", "ebits", "deep"]
         if tier == "thorough":
             pool = KIND_LIST if k <= 3 else mid
         else:
